@@ -4,7 +4,7 @@ FailFast = {"a"}
 Cancellable = {"b"}
 MaxGen = 3
 Kinds = {"ok", "notready", "nosc", "status", "err"}
-MaxFlips = 1
+MaxFlips = 0
 Mutant = 0
 INIT Init
 NEXT Next
